@@ -1,4 +1,5 @@
 """C13 — Unpack changes only what the config mentions and nothing when it fails."""
+import json
 from ..gens import *
 from .. import typegen as TG
 from .. import catalog as CAT
@@ -7,7 +8,7 @@ ID = "C13"
 LEAN_MODULE = "Ucfg.Props.C13"
 LEVEL_TEXT = 'Frame theorems per field, lifted to whole structs (struct_frame, unpack_frame) and RECURSIVELY (unpack_frame_rec: after a successful Unpack into a struct of any field types, everything the configuration has nothing for - ignored / unexported fields, fields without a setting or with a null one - holds what it held at every depth reachable through struct fields, non-nil pointers and fixed-size arrays; induction over the fuel with a claim for mergeValue / reifyStructT / getField / doArray); slices and map entries are rebuilt by policy: their frames, atomicity on failure and the frame of whole results are oracles on the implementation (recursive frame oracle frameRec, shallow key before/after incl. slice elements; catalogue types for Validate ordering).'
 CORRESPONDENCE = "Unpack.{reifyStructT,getField',mergeValue,sliceMerge} ~ (*Config).Unpack into pre-filled reflect.StructOf targets"
-RULE = ("C04's type generator with pre-filled targets (every field holds a random value of its type) x configurations mentioning a "
+RULE = ("Plus: pointers to a type with InitDefaults (kind ptrinit, hand-written target: pointer field, list and map of pointers), pre-filled by the caller, with no / a null / an object setting, unpacked once or twice: no setting leaves the pointer and what it points to alone, an object setting writes the mentioned fields and leaves the others as they were or as InitDefaults sets them. Main stream: C04's type generator with pre-filled targets (every field holds a random value of its type) x configurations mentioning a "
         "random subset of the fields (possibly none) x slice policies (append/prepend/replace/merge tags and global options) x one fault "
         "(conversion, range, validator, wrong kind, array size) injected at a random field position in half of the cases. The worker "
         "snapshots the target before the call ('shallow': maps and pointees by identity) and compares after a failure. Oracle: on "
@@ -21,13 +22,83 @@ ASSUMPTIONS = ["'unchanged' is shallow: contents of maps and pointed-to objects 
 def normalize_pair(case, impl, model):
     if case.get("k") == "catalog":
         return CAT.normalize_pair(case, impl, model)
+    if case.get("k") == "ptrinit":
+        return {"unmodelled": True}, {"unmodelled": True}        # decided by the oracle on the implementation's result
     return TG.normalize_unpack_result(case, impl), TG.normalize_unpack_result(case, model)
 
 
-oracle = CAT.oracle_c13
+PI_DEFAULT = {"port": 8080, "host": "localhost"}
+
+
+def ptrinit_oracle(case, impl):
+    """pointers to a type with InitDefaults: no setting (or a null one) leaves the pointer and what it points to alone; an
+    object setting writes the mentioned fields, every other field is what it was or what InitDefaults sets"""
+    if not isinstance(impl, dict):
+        return (False, "no result")
+    if "panic" in impl or "fatal" in impl:
+        return (False, "Unpack crashed: " + json.dumps(impl)[:200])
+    ok = impl.get("ok")
+    if not isinstance(ok, dict):
+        return (True, "")                 # an error: nothing to compare (atomicity is the business of the typed stream)
+    top = dict((k, v) for k, v in case["from"]["m"])
+    def plain(d):
+        if isinstance(d, dict) and "u" in d: return int(d["u"])
+        if isinstance(d, dict) and "s" in d: return d["s"]
+        return d
+    def check(where, pre, setting, mentioned, got):
+        if not mentioned or setting is None:
+            if got != pre:
+                return "%s has no setting (or a null one) and held %s: afterwards it holds %s" % (where, json.dumps(pre), json.dumps(got))
+            return None
+        if not (isinstance(setting, dict) and "m" in setting):
+            return None
+        if got is None:
+            return "%s has an object setting and is nil afterwards" % where
+        sd = dict((k, v) for k, v in setting["m"])
+        for f in ("port", "host"):
+            if f in sd and sd[f] is not None:
+                if got.get(f) != plain(sd[f]):
+                    return "%s.%s is set to %s and reads %s" % (where, f, json.dumps(plain(sd[f])), json.dumps(got.get(f)))
+            else:
+                allowed = [PI_DEFAULT[f]] + ([pre[f]] if pre is not None else [])
+                if got.get(f) not in allowed:
+                    return "%s.%s has no setting: it reads %s, it held %s (InitDefaults sets %s)" % (where, f, json.dumps(got.get(f)), json.dumps(pre[f] if pre else None), json.dumps(PI_DEFAULT[f]))
+        return None
+    pre_p = case.get("p")
+    if pre_p is not None: pre_p = {"port": pre_p.get("port", 0), "host": pre_p.get("host", ""), "tags": pre_p.get("tags", [])}
+    why = check("p", pre_p, top.get("p"), "p" in top, ok.get("p"))
+    if why is None and ("p" not in top or top["p"] is None) and pre_p is not None and ok.get("samePtr") is False:
+        why = "p has no setting and points to another object afterwards"
+    return (False, why) if why else (True, "")
+
+
+def oracle(case, impl, model):
+    if case.get("k") == "ptrinit":
+        return ptrinit_oracle(case, impl)
+    return CAT.oracle_c13(case, impl, model)
+
+
+def ptrinit_cases(rng, tier):
+    for i in range(150 if tier == "quick" else 1500):
+        def pre():
+            if rng.chance(0.2): return None
+            return {"port": rng.pick([5, 7, 100, 8080]), "host": rng.pick(["h", "old", "localhost"]), "tags": rng.pick([[], ["t"]])}
+        top = []
+        r = rng.below(5)
+        if r == 1: top.append(("p", None))
+        elif r == 2: top.append(("p", M([("host", S("new"))])))
+        elif r == 3: top.append(("p", M([("port", U(9)), ("host", S("new"))])))
+        elif r == 4: top.append(("p", M([])))
+        top.append(("n", U(1 + rng.below(5))))
+        if rng.chance(0.3):
+            top.append(("l", A([rng.pick([None, M([("port", U(3))])]) for _ in range(rng.below(3))])))
+        yield {"k": "ptrinit", "p": pre(), "l": [pre() for _ in range(rng.below(3))], "m": {"k%d" % j: pre() for j in range(rng.below(3))},
+               "from": M(top), "copts": [], "uopts": [], "repeat": 1 + rng.below(2), "_tag": "ptrinit", "_nt": True,
+               "_sig": "ptrinit|%d|%d" % (r, i % 11)}
 
 
 def gen(rng, tier):
+    yield from ptrinit_cases(rng.fork("ptrinit"), tier)
     n = 1500 if tier == "quick" else 15000
     for _ in range(n):
         ty = TG.rand_type(rng, 1 + rng.below(3 if tier == "quick" else 4), top=True)
@@ -147,7 +218,11 @@ def gen(rng, tier):
         yield CAT.cat_case(crng)
 
 
-fix_candidate = TG.fix_typed_candidate
+def fix_candidate(cand, base):
+    if cand.get("k") == "ptrinit":
+        from .. import forest as FO
+        return cand if FO.wellformed_data(cand.get("from")) and isinstance(cand.get("l"), list) and isinstance(cand.get("m"), dict) else None
+    return TG.fix_typed_candidate(cand, base)
 
 
 def check_facts(facts):
